@@ -228,3 +228,23 @@ Definition gnu_hash_section_get_symbol (img : list Z) (c : symcfg) (hash_off : Z
 Definition gnu_hash_section_number_of_symbols (img : list Z) (c : symcfg) (hash_off : Z) : res Z :=
   do P <- gnu_hash_init (c_le c) (c_is64 c) img hash_off;
   gnu_hash_number_of_symbols (read_chain_word (c_le c) img P) (gnu_fuel img) P.
+
+(* ------------------------------------------------------------------ the stream cursor in the GNU count walk.
+   get_number_of_symbols as the code runs it: ONE seek to the chain word of max_idx, then 4-byte
+   reads at the cursor.  It is a plain method (no yield), so nothing can move the stream between
+   its reads; [cur] is the cursor inside the loop. *)
+Fixpoint gnu_count_walk_cur (le : bool) (img : list Z) (fuel : nat) (cur : Z) (max_idx : Z) : res Z :=
+  match fuel with
+  | O => Err EFuel
+  | S f =>
+      match read_uint le 4 img cur with
+      | None => Err (EPy "error"%string)
+      | Some cur_hash =>
+          if negb (Z.land cur_hash 1 =? 0) then Ok (max_idx + 1)
+          else gnu_count_walk_cur le img f (cur + gnu_wordsize) (max_idx + 1)
+      end
+  end.
+Definition gnu_hash_number_of_symbols_cur (le : bool) (img : list Z) (fuel : nat) (P : gnu_hash_params) : res Z :=
+  do max_idx <- py_max (gh_buckets P);
+  if max_idx <? gh_symoffset P then Ok (gh_symoffset P)
+  else gnu_count_walk_cur le img fuel (gh_chain_pos P + (max_idx - gh_symoffset P) * gnu_wordsize) max_idx.
